@@ -47,7 +47,7 @@ fn be64(b: &[u8; 8]) -> u64 {
 /// Uninterpreted function u32 x u32 -> u32 standing for "g is some pure function of (a, k)" (Ackermann table with a
 /// concrete call counter; pattern of _common `uf` / des `ufp`).
 pub mod ufg {
-    pub const MAXC: usize = 128;
+    pub const MAXC: usize = 64; // <= CBMC's field-sensitivity limit for arrays (64): larger tables fall back to array theory and explode
     pub static mut A: [u32; MAXC] = [0; MAXC];
     pub static mut K: [u32; MAXC] = [0; MAXC];
     pub static mut Y: [u32; MAXC] = [0; MAXC];
@@ -145,13 +145,13 @@ macro_rules! conformance {
     };
 }
 
-// C01 in both orders, for every state, g uninterpreted
+// C01 in both orders (one harness per order: 64 calls of g each), for every state, g uninterpreted
 macro_rules! roundtrip {
-    ($name:ident, $ty:ty) => {
+    ($ed:ident, $de:ident, $ty:ty) => {
         #[kani::proof]
         #[kani::stub(crate::sboxes::SboxExt::g, UfExt::uf_g)]
-        #[kani::unwind(130)]
-        fn $name() {
+        #[kani::unwind(66)]
+        fn $ed() {
             let c: $ty = any_c();
             let b: [u8; 8] = kani::any();
             let mut blk = Array(b);
@@ -162,6 +162,14 @@ macro_rules! roundtrip {
                 assert!(blk.0[i] == b[i]);
                 i += 1;
             }
+        }
+        #[kani::proof]
+        #[kani::stub(crate::sboxes::SboxExt::g, UfExt::uf_g)]
+        #[kani::unwind(66)]
+        fn $de() {
+            let c: $ty = any_c();
+            let b: [u8; 8] = kani::any();
+            let mut blk = Array(b);
             cipher::BlockCipherDecrypt::decrypt_block(&c, &mut blk);
             cipher::BlockCipherEncrypt::encrypt_block(&c, &mut blk);
             let mut i = 0;
@@ -175,10 +183,21 @@ macro_rules! roundtrip {
 
 // C04 / C15: in-place and buffer-to-buffer calls on n blocks are the single-block call on each block, in both
 // directions; b2b inputs and the guard blocks around the output are untouched; the cipher state is unchanged.
-// No stub: the real block function on both sides.
+// What is under test is the plumbing (encrypt_with_backend / decrypt_with_backend handing `self` to the cipher
+// crate's block drivers, which are generic in S and never look inside g).  To keep 18 block evaluations cheap, g is
+// replaced by the trivial pure function (a, k) -> a ^ k: the block function stays a key-dependent bijection of the
+// block, so any mix-up of positions, a skipped or doubly processed block or a write outside the output is still
+// detected.  (Kani 0.68 cannot stub a method of a generic impl such as `<Gost89<Tc26> as BlockCipherEncBackend>::encrypt_block`
+// - "unable to find implementation ... for Gost89<S>" - so the block function itself cannot be made uninterpreted as
+// in des/api.rs, and an Ackermann table for 576 calls of g is out of reach.)
+pub trait CheapExt: Sbox {
+    fn cheap_g(a: u32, k: u32) -> u32 { a ^ k }
+}
+impl<T: Sbox> CheapExt for T {}
 macro_rules! multi_block {
     ($name:ident, $ty:ty, $n:expr) => {
         #[kani::proof]
+        #[kani::stub(crate::sboxes::SboxExt::g, CheapExt::cheap_g)]
         #[kani::unwind(33)]
         fn $name() {
             let c: $ty = any_c();
@@ -226,6 +245,7 @@ macro_rules! multi_block {
             // length mismatch is an error, not a panic, and writes nothing
             let mut short = [Array(g); $n + 1];
             assert!(cipher::BlockCipherEncrypt::encrypt_blocks_b2b(&c, &src, &mut short).is_err());
+            assert!(cipher::BlockCipherDecrypt::decrypt_blocks_b2b(&c, &src, &mut short).is_err());
             assert!(short[0].0 == g && short[$n].0 == g);
             assert!(eq8(&before, &c.key));
         }
@@ -324,13 +344,14 @@ macro_rules! zero_on_drop {
 // @ob name=c_magma_api_enc props=C07,C20 fn=magma::Magma::new,magma::Magma::encrypt_block,magma::Magma::encrypt_with_backend uses=c_tc26_gfun timeout=300
 // @ob name=c_magma_api_dec props=C07,C20 fn=magma::Magma::new,magma::Magma::decrypt_block,magma::Magma::decrypt_with_backend uses=c_tc26_gfun timeout=300
 conformance!(c_magma_keywords, c_magma_enc_state, c_magma_dec_state, c_magma_api_enc, c_magma_api_dec, Magma, r::PI_TC26);
-// @ob name=l_magma_roundtrip props=C01 kind=lemma fn=magma::Magma::encrypt_block,magma::Magma::decrypt_block uses=c_tc26_gfun timeout=600
-roundtrip!(l_magma_roundtrip, Magma);
-// @ob name=m_magma_blocks_0 props=C04,C15 kind=bounded bound="n = 0 block(s)" fn=magma::Magma::encrypt_with_backend,magma::Magma::decrypt_with_backend,magma::Magma::encrypt_block,magma::Magma::decrypt_block timeout=600
+// @ob name=l_magma_rt_encdec props=C01 kind=lemma fn=magma::Magma::encrypt_block,magma::Magma::decrypt_block uses=c_tc26_gfun timeout=600
+// @ob name=l_magma_rt_decenc props=C01 kind=lemma fn=magma::Magma::encrypt_block,magma::Magma::decrypt_block uses=c_tc26_gfun timeout=600
+roundtrip!(l_magma_rt_encdec, l_magma_rt_decenc, Magma);
+// @ob name=m_magma_blocks_0 props=C04,C15 kind=bounded bound="n = 0 block(s)" fn=magma::Magma::encrypt_with_backend,magma::Magma::decrypt_with_backend note="g abstracted to a^k (plumbing only; the real block functions are c_magma_enc_state / c_magma_dec_state)" timeout=600
 multi_block!(m_magma_blocks_0, Magma, 0);
-// @ob name=m_magma_blocks_1 props=C04,C15 kind=bounded bound="n = 1 block(s)" fn=magma::Magma::encrypt_with_backend,magma::Magma::decrypt_with_backend,magma::Magma::encrypt_block,magma::Magma::decrypt_block timeout=600
+// @ob name=m_magma_blocks_1 props=C04,C15 kind=bounded bound="n = 1 block(s)" fn=magma::Magma::encrypt_with_backend,magma::Magma::decrypt_with_backend note="g abstracted to a^k (plumbing only; the real block functions are c_magma_enc_state / c_magma_dec_state)" timeout=600
 multi_block!(m_magma_blocks_1, Magma, 1);
-// @ob name=m_magma_blocks_3 props=C04,C15 kind=bounded bound="n = 3 block(s)" fn=magma::Magma::encrypt_with_backend,magma::Magma::decrypt_with_backend,magma::Magma::encrypt_block,magma::Magma::decrypt_block timeout=600
+// @ob name=m_magma_blocks_3 props=C04,C15 kind=bounded bound="n = 3 block(s)" fn=magma::Magma::encrypt_with_backend,magma::Magma::decrypt_with_backend note="g abstracted to a^k (plumbing only; the real block functions are c_magma_enc_state / c_magma_dec_state)" timeout=600
 multi_block!(m_magma_blocks_3, Magma, 3);
 // @ob name=k_magma_keylen props=C11 kind=bounded bound="slice length <= 300" fn=magma::Magma::new_from_slice timeout=300
 keylen!(k_magma_keylen, Magma);
@@ -352,13 +373,14 @@ zero_on_drop!(z_magma_clone_drop, Magma, any_c::<Tc26>().clone());
 // @ob name=c_gtest_api_enc props=C07,C20 fn=magma::Gost89Test::new,magma::Gost89Test::encrypt_block,magma::Gost89Test::encrypt_with_backend uses=c_test_gfun timeout=300
 // @ob name=c_gtest_api_dec props=C07,C20 fn=magma::Gost89Test::new,magma::Gost89Test::decrypt_block,magma::Gost89Test::decrypt_with_backend uses=c_test_gfun timeout=300
 conformance!(c_gtest_keywords, c_gtest_enc_state, c_gtest_dec_state, c_gtest_api_enc, c_gtest_api_dec, Gost89Test, r::PI_TEST);
-// @ob name=l_gtest_roundtrip props=C01 kind=lemma fn=magma::Gost89Test::encrypt_block,magma::Gost89Test::decrypt_block uses=c_test_gfun timeout=600
-roundtrip!(l_gtest_roundtrip, Gost89Test);
-// @ob name=m_gtest_blocks_0 props=C04,C15 kind=bounded bound="n = 0 block(s)" fn=magma::Gost89Test::encrypt_with_backend,magma::Gost89Test::decrypt_with_backend,magma::Gost89Test::encrypt_block,magma::Gost89Test::decrypt_block timeout=600
+// @ob name=l_gtest_rt_encdec props=C01 kind=lemma fn=magma::Gost89Test::encrypt_block,magma::Gost89Test::decrypt_block uses=c_test_gfun timeout=600
+// @ob name=l_gtest_rt_decenc props=C01 kind=lemma fn=magma::Gost89Test::encrypt_block,magma::Gost89Test::decrypt_block uses=c_test_gfun timeout=600
+roundtrip!(l_gtest_rt_encdec, l_gtest_rt_decenc, Gost89Test);
+// @ob name=m_gtest_blocks_0 props=C04,C15 kind=bounded bound="n = 0 block(s)" fn=magma::Gost89Test::encrypt_with_backend,magma::Gost89Test::decrypt_with_backend note="g abstracted to a^k (plumbing only; the real block functions are c_gtest_enc_state / c_gtest_dec_state)" timeout=600
 multi_block!(m_gtest_blocks_0, Gost89Test, 0);
-// @ob name=m_gtest_blocks_1 props=C04,C15 kind=bounded bound="n = 1 block(s)" fn=magma::Gost89Test::encrypt_with_backend,magma::Gost89Test::decrypt_with_backend,magma::Gost89Test::encrypt_block,magma::Gost89Test::decrypt_block timeout=600
+// @ob name=m_gtest_blocks_1 props=C04,C15 kind=bounded bound="n = 1 block(s)" fn=magma::Gost89Test::encrypt_with_backend,magma::Gost89Test::decrypt_with_backend note="g abstracted to a^k (plumbing only; the real block functions are c_gtest_enc_state / c_gtest_dec_state)" timeout=600
 multi_block!(m_gtest_blocks_1, Gost89Test, 1);
-// @ob name=m_gtest_blocks_3 props=C04,C15 kind=bounded bound="n = 3 block(s)" fn=magma::Gost89Test::encrypt_with_backend,magma::Gost89Test::decrypt_with_backend,magma::Gost89Test::encrypt_block,magma::Gost89Test::decrypt_block timeout=600
+// @ob name=m_gtest_blocks_3 props=C04,C15 kind=bounded bound="n = 3 block(s)" fn=magma::Gost89Test::encrypt_with_backend,magma::Gost89Test::decrypt_with_backend note="g abstracted to a^k (plumbing only; the real block functions are c_gtest_enc_state / c_gtest_dec_state)" timeout=600
 multi_block!(m_gtest_blocks_3, Gost89Test, 3);
 // @ob name=k_gtest_keylen props=C11 kind=bounded bound="slice length <= 300" fn=magma::Gost89Test::new_from_slice timeout=300
 keylen!(k_gtest_keylen, Gost89Test);
@@ -380,13 +402,14 @@ zero_on_drop!(z_gtest_clone_drop, Gost89Test, any_c::<TestSbox>().clone());
 // @ob name=c_cpa_api_enc props=C07,C20 fn=magma::Gost89CryptoProA::new,magma::Gost89CryptoProA::encrypt_block,magma::Gost89CryptoProA::encrypt_with_backend uses=c_cpa_gfun timeout=300
 // @ob name=c_cpa_api_dec props=C07,C20 fn=magma::Gost89CryptoProA::new,magma::Gost89CryptoProA::decrypt_block,magma::Gost89CryptoProA::decrypt_with_backend uses=c_cpa_gfun timeout=300
 conformance!(c_cpa_keywords, c_cpa_enc_state, c_cpa_dec_state, c_cpa_api_enc, c_cpa_api_dec, Gost89CryptoProA, r::PI_CRYPTOPRO_A);
-// @ob name=l_cpa_roundtrip props=C01 kind=lemma fn=magma::Gost89CryptoProA::encrypt_block,magma::Gost89CryptoProA::decrypt_block uses=c_cpa_gfun timeout=600
-roundtrip!(l_cpa_roundtrip, Gost89CryptoProA);
-// @ob name=m_cpa_blocks_0 props=C04,C15 kind=bounded bound="n = 0 block(s)" fn=magma::Gost89CryptoProA::encrypt_with_backend,magma::Gost89CryptoProA::decrypt_with_backend,magma::Gost89CryptoProA::encrypt_block,magma::Gost89CryptoProA::decrypt_block timeout=600
+// @ob name=l_cpa_rt_encdec props=C01 kind=lemma fn=magma::Gost89CryptoProA::encrypt_block,magma::Gost89CryptoProA::decrypt_block uses=c_cpa_gfun timeout=600
+// @ob name=l_cpa_rt_decenc props=C01 kind=lemma fn=magma::Gost89CryptoProA::encrypt_block,magma::Gost89CryptoProA::decrypt_block uses=c_cpa_gfun timeout=600
+roundtrip!(l_cpa_rt_encdec, l_cpa_rt_decenc, Gost89CryptoProA);
+// @ob name=m_cpa_blocks_0 props=C04,C15 kind=bounded bound="n = 0 block(s)" fn=magma::Gost89CryptoProA::encrypt_with_backend,magma::Gost89CryptoProA::decrypt_with_backend note="g abstracted to a^k (plumbing only; the real block functions are c_cpa_enc_state / c_cpa_dec_state)" timeout=600
 multi_block!(m_cpa_blocks_0, Gost89CryptoProA, 0);
-// @ob name=m_cpa_blocks_1 props=C04,C15 kind=bounded bound="n = 1 block(s)" fn=magma::Gost89CryptoProA::encrypt_with_backend,magma::Gost89CryptoProA::decrypt_with_backend,magma::Gost89CryptoProA::encrypt_block,magma::Gost89CryptoProA::decrypt_block timeout=600
+// @ob name=m_cpa_blocks_1 props=C04,C15 kind=bounded bound="n = 1 block(s)" fn=magma::Gost89CryptoProA::encrypt_with_backend,magma::Gost89CryptoProA::decrypt_with_backend note="g abstracted to a^k (plumbing only; the real block functions are c_cpa_enc_state / c_cpa_dec_state)" timeout=600
 multi_block!(m_cpa_blocks_1, Gost89CryptoProA, 1);
-// @ob name=m_cpa_blocks_3 props=C04,C15 kind=bounded bound="n = 3 block(s)" fn=magma::Gost89CryptoProA::encrypt_with_backend,magma::Gost89CryptoProA::decrypt_with_backend,magma::Gost89CryptoProA::encrypt_block,magma::Gost89CryptoProA::decrypt_block timeout=600
+// @ob name=m_cpa_blocks_3 props=C04,C15 kind=bounded bound="n = 3 block(s)" fn=magma::Gost89CryptoProA::encrypt_with_backend,magma::Gost89CryptoProA::decrypt_with_backend note="g abstracted to a^k (plumbing only; the real block functions are c_cpa_enc_state / c_cpa_dec_state)" timeout=600
 multi_block!(m_cpa_blocks_3, Gost89CryptoProA, 3);
 // @ob name=k_cpa_keylen props=C11 kind=bounded bound="slice length <= 300" fn=magma::Gost89CryptoProA::new_from_slice timeout=300
 keylen!(k_cpa_keylen, Gost89CryptoProA);
@@ -408,13 +431,14 @@ zero_on_drop!(z_cpa_clone_drop, Gost89CryptoProA, any_c::<CryptoProA>().clone())
 // @ob name=c_cpb_api_enc props=C07,C20 fn=magma::Gost89CryptoProB::new,magma::Gost89CryptoProB::encrypt_block,magma::Gost89CryptoProB::encrypt_with_backend uses=c_cpb_gfun timeout=300
 // @ob name=c_cpb_api_dec props=C07,C20 fn=magma::Gost89CryptoProB::new,magma::Gost89CryptoProB::decrypt_block,magma::Gost89CryptoProB::decrypt_with_backend uses=c_cpb_gfun timeout=300
 conformance!(c_cpb_keywords, c_cpb_enc_state, c_cpb_dec_state, c_cpb_api_enc, c_cpb_api_dec, Gost89CryptoProB, r::PI_CRYPTOPRO_B);
-// @ob name=l_cpb_roundtrip props=C01 kind=lemma fn=magma::Gost89CryptoProB::encrypt_block,magma::Gost89CryptoProB::decrypt_block uses=c_cpb_gfun timeout=600
-roundtrip!(l_cpb_roundtrip, Gost89CryptoProB);
-// @ob name=m_cpb_blocks_0 props=C04,C15 kind=bounded bound="n = 0 block(s)" fn=magma::Gost89CryptoProB::encrypt_with_backend,magma::Gost89CryptoProB::decrypt_with_backend,magma::Gost89CryptoProB::encrypt_block,magma::Gost89CryptoProB::decrypt_block timeout=600
+// @ob name=l_cpb_rt_encdec props=C01 kind=lemma fn=magma::Gost89CryptoProB::encrypt_block,magma::Gost89CryptoProB::decrypt_block uses=c_cpb_gfun timeout=600
+// @ob name=l_cpb_rt_decenc props=C01 kind=lemma fn=magma::Gost89CryptoProB::encrypt_block,magma::Gost89CryptoProB::decrypt_block uses=c_cpb_gfun timeout=600
+roundtrip!(l_cpb_rt_encdec, l_cpb_rt_decenc, Gost89CryptoProB);
+// @ob name=m_cpb_blocks_0 props=C04,C15 kind=bounded bound="n = 0 block(s)" fn=magma::Gost89CryptoProB::encrypt_with_backend,magma::Gost89CryptoProB::decrypt_with_backend note="g abstracted to a^k (plumbing only; the real block functions are c_cpb_enc_state / c_cpb_dec_state)" timeout=600
 multi_block!(m_cpb_blocks_0, Gost89CryptoProB, 0);
-// @ob name=m_cpb_blocks_1 props=C04,C15 kind=bounded bound="n = 1 block(s)" fn=magma::Gost89CryptoProB::encrypt_with_backend,magma::Gost89CryptoProB::decrypt_with_backend,magma::Gost89CryptoProB::encrypt_block,magma::Gost89CryptoProB::decrypt_block timeout=600
+// @ob name=m_cpb_blocks_1 props=C04,C15 kind=bounded bound="n = 1 block(s)" fn=magma::Gost89CryptoProB::encrypt_with_backend,magma::Gost89CryptoProB::decrypt_with_backend note="g abstracted to a^k (plumbing only; the real block functions are c_cpb_enc_state / c_cpb_dec_state)" timeout=600
 multi_block!(m_cpb_blocks_1, Gost89CryptoProB, 1);
-// @ob name=m_cpb_blocks_3 props=C04,C15 kind=bounded bound="n = 3 block(s)" fn=magma::Gost89CryptoProB::encrypt_with_backend,magma::Gost89CryptoProB::decrypt_with_backend,magma::Gost89CryptoProB::encrypt_block,magma::Gost89CryptoProB::decrypt_block timeout=600
+// @ob name=m_cpb_blocks_3 props=C04,C15 kind=bounded bound="n = 3 block(s)" fn=magma::Gost89CryptoProB::encrypt_with_backend,magma::Gost89CryptoProB::decrypt_with_backend note="g abstracted to a^k (plumbing only; the real block functions are c_cpb_enc_state / c_cpb_dec_state)" timeout=600
 multi_block!(m_cpb_blocks_3, Gost89CryptoProB, 3);
 // @ob name=k_cpb_keylen props=C11 kind=bounded bound="slice length <= 300" fn=magma::Gost89CryptoProB::new_from_slice timeout=300
 keylen!(k_cpb_keylen, Gost89CryptoProB);
@@ -436,13 +460,14 @@ zero_on_drop!(z_cpb_clone_drop, Gost89CryptoProB, any_c::<CryptoProB>().clone())
 // @ob name=c_cpc_api_enc props=C07,C20 fn=magma::Gost89CryptoProC::new,magma::Gost89CryptoProC::encrypt_block,magma::Gost89CryptoProC::encrypt_with_backend uses=c_cpc_gfun timeout=300
 // @ob name=c_cpc_api_dec props=C07,C20 fn=magma::Gost89CryptoProC::new,magma::Gost89CryptoProC::decrypt_block,magma::Gost89CryptoProC::decrypt_with_backend uses=c_cpc_gfun timeout=300
 conformance!(c_cpc_keywords, c_cpc_enc_state, c_cpc_dec_state, c_cpc_api_enc, c_cpc_api_dec, Gost89CryptoProC, r::PI_CRYPTOPRO_C);
-// @ob name=l_cpc_roundtrip props=C01 kind=lemma fn=magma::Gost89CryptoProC::encrypt_block,magma::Gost89CryptoProC::decrypt_block uses=c_cpc_gfun timeout=600
-roundtrip!(l_cpc_roundtrip, Gost89CryptoProC);
-// @ob name=m_cpc_blocks_0 props=C04,C15 kind=bounded bound="n = 0 block(s)" fn=magma::Gost89CryptoProC::encrypt_with_backend,magma::Gost89CryptoProC::decrypt_with_backend,magma::Gost89CryptoProC::encrypt_block,magma::Gost89CryptoProC::decrypt_block timeout=600
+// @ob name=l_cpc_rt_encdec props=C01 kind=lemma fn=magma::Gost89CryptoProC::encrypt_block,magma::Gost89CryptoProC::decrypt_block uses=c_cpc_gfun timeout=600
+// @ob name=l_cpc_rt_decenc props=C01 kind=lemma fn=magma::Gost89CryptoProC::encrypt_block,magma::Gost89CryptoProC::decrypt_block uses=c_cpc_gfun timeout=600
+roundtrip!(l_cpc_rt_encdec, l_cpc_rt_decenc, Gost89CryptoProC);
+// @ob name=m_cpc_blocks_0 props=C04,C15 kind=bounded bound="n = 0 block(s)" fn=magma::Gost89CryptoProC::encrypt_with_backend,magma::Gost89CryptoProC::decrypt_with_backend note="g abstracted to a^k (plumbing only; the real block functions are c_cpc_enc_state / c_cpc_dec_state)" timeout=600
 multi_block!(m_cpc_blocks_0, Gost89CryptoProC, 0);
-// @ob name=m_cpc_blocks_1 props=C04,C15 kind=bounded bound="n = 1 block(s)" fn=magma::Gost89CryptoProC::encrypt_with_backend,magma::Gost89CryptoProC::decrypt_with_backend,magma::Gost89CryptoProC::encrypt_block,magma::Gost89CryptoProC::decrypt_block timeout=600
+// @ob name=m_cpc_blocks_1 props=C04,C15 kind=bounded bound="n = 1 block(s)" fn=magma::Gost89CryptoProC::encrypt_with_backend,magma::Gost89CryptoProC::decrypt_with_backend note="g abstracted to a^k (plumbing only; the real block functions are c_cpc_enc_state / c_cpc_dec_state)" timeout=600
 multi_block!(m_cpc_blocks_1, Gost89CryptoProC, 1);
-// @ob name=m_cpc_blocks_3 props=C04,C15 kind=bounded bound="n = 3 block(s)" fn=magma::Gost89CryptoProC::encrypt_with_backend,magma::Gost89CryptoProC::decrypt_with_backend,magma::Gost89CryptoProC::encrypt_block,magma::Gost89CryptoProC::decrypt_block timeout=600
+// @ob name=m_cpc_blocks_3 props=C04,C15 kind=bounded bound="n = 3 block(s)" fn=magma::Gost89CryptoProC::encrypt_with_backend,magma::Gost89CryptoProC::decrypt_with_backend note="g abstracted to a^k (plumbing only; the real block functions are c_cpc_enc_state / c_cpc_dec_state)" timeout=600
 multi_block!(m_cpc_blocks_3, Gost89CryptoProC, 3);
 // @ob name=k_cpc_keylen props=C11 kind=bounded bound="slice length <= 300" fn=magma::Gost89CryptoProC::new_from_slice timeout=300
 keylen!(k_cpc_keylen, Gost89CryptoProC);
@@ -464,13 +489,14 @@ zero_on_drop!(z_cpc_clone_drop, Gost89CryptoProC, any_c::<CryptoProC>().clone())
 // @ob name=c_cpd_api_enc props=C07,C20 fn=magma::Gost89CryptoProD::new,magma::Gost89CryptoProD::encrypt_block,magma::Gost89CryptoProD::encrypt_with_backend uses=c_cpd_gfun timeout=300
 // @ob name=c_cpd_api_dec props=C07,C20 fn=magma::Gost89CryptoProD::new,magma::Gost89CryptoProD::decrypt_block,magma::Gost89CryptoProD::decrypt_with_backend uses=c_cpd_gfun timeout=300
 conformance!(c_cpd_keywords, c_cpd_enc_state, c_cpd_dec_state, c_cpd_api_enc, c_cpd_api_dec, Gost89CryptoProD, r::PI_CRYPTOPRO_D);
-// @ob name=l_cpd_roundtrip props=C01 kind=lemma fn=magma::Gost89CryptoProD::encrypt_block,magma::Gost89CryptoProD::decrypt_block uses=c_cpd_gfun timeout=600
-roundtrip!(l_cpd_roundtrip, Gost89CryptoProD);
-// @ob name=m_cpd_blocks_0 props=C04,C15 kind=bounded bound="n = 0 block(s)" fn=magma::Gost89CryptoProD::encrypt_with_backend,magma::Gost89CryptoProD::decrypt_with_backend,magma::Gost89CryptoProD::encrypt_block,magma::Gost89CryptoProD::decrypt_block timeout=600
+// @ob name=l_cpd_rt_encdec props=C01 kind=lemma fn=magma::Gost89CryptoProD::encrypt_block,magma::Gost89CryptoProD::decrypt_block uses=c_cpd_gfun timeout=600
+// @ob name=l_cpd_rt_decenc props=C01 kind=lemma fn=magma::Gost89CryptoProD::encrypt_block,magma::Gost89CryptoProD::decrypt_block uses=c_cpd_gfun timeout=600
+roundtrip!(l_cpd_rt_encdec, l_cpd_rt_decenc, Gost89CryptoProD);
+// @ob name=m_cpd_blocks_0 props=C04,C15 kind=bounded bound="n = 0 block(s)" fn=magma::Gost89CryptoProD::encrypt_with_backend,magma::Gost89CryptoProD::decrypt_with_backend note="g abstracted to a^k (plumbing only; the real block functions are c_cpd_enc_state / c_cpd_dec_state)" timeout=600
 multi_block!(m_cpd_blocks_0, Gost89CryptoProD, 0);
-// @ob name=m_cpd_blocks_1 props=C04,C15 kind=bounded bound="n = 1 block(s)" fn=magma::Gost89CryptoProD::encrypt_with_backend,magma::Gost89CryptoProD::decrypt_with_backend,magma::Gost89CryptoProD::encrypt_block,magma::Gost89CryptoProD::decrypt_block timeout=600
+// @ob name=m_cpd_blocks_1 props=C04,C15 kind=bounded bound="n = 1 block(s)" fn=magma::Gost89CryptoProD::encrypt_with_backend,magma::Gost89CryptoProD::decrypt_with_backend note="g abstracted to a^k (plumbing only; the real block functions are c_cpd_enc_state / c_cpd_dec_state)" timeout=600
 multi_block!(m_cpd_blocks_1, Gost89CryptoProD, 1);
-// @ob name=m_cpd_blocks_3 props=C04,C15 kind=bounded bound="n = 3 block(s)" fn=magma::Gost89CryptoProD::encrypt_with_backend,magma::Gost89CryptoProD::decrypt_with_backend,magma::Gost89CryptoProD::encrypt_block,magma::Gost89CryptoProD::decrypt_block timeout=600
+// @ob name=m_cpd_blocks_3 props=C04,C15 kind=bounded bound="n = 3 block(s)" fn=magma::Gost89CryptoProD::encrypt_with_backend,magma::Gost89CryptoProD::decrypt_with_backend note="g abstracted to a^k (plumbing only; the real block functions are c_cpd_enc_state / c_cpd_dec_state)" timeout=600
 multi_block!(m_cpd_blocks_3, Gost89CryptoProD, 3);
 // @ob name=k_cpd_keylen props=C11 kind=bounded bound="slice length <= 300" fn=magma::Gost89CryptoProD::new_from_slice timeout=300
 keylen!(k_cpd_keylen, Gost89CryptoProD);
@@ -492,13 +518,14 @@ zero_on_drop!(z_cpd_clone_drop, Gost89CryptoProD, any_c::<CryptoProD>().clone())
 // @ob name=c_user_api_enc props=C07,C20 kind=bounded bound="user-supplied set sampled by one concrete non-bundled table; genericity over the table rests on gen_exp_sbox being proved for every table (see c_any_table_enc / c_any_table_dec for every table)" fn=magma::Gost89<UserS>::new,magma::Gost89<UserS>::encrypt_block,magma::Gost89<UserS>::encrypt_with_backend uses=c_user_gfun timeout=300
 // @ob name=c_user_api_dec props=C07,C20 kind=bounded bound="user-supplied set sampled by one concrete non-bundled table; genericity over the table rests on gen_exp_sbox being proved for every table (see c_any_table_enc / c_any_table_dec for every table)" fn=magma::Gost89<UserS>::new,magma::Gost89<UserS>::decrypt_block,magma::Gost89<UserS>::decrypt_with_backend uses=c_user_gfun timeout=300
 conformance!(c_user_keywords, c_user_enc_state, c_user_dec_state, c_user_api_enc, c_user_api_dec, Gost89User, user_table());
-// @ob name=l_user_roundtrip props=C01 kind=lemma fn=magma::Gost89<UserS>::encrypt_block,magma::Gost89<UserS>::decrypt_block uses=c_user_gfun timeout=600
-roundtrip!(l_user_roundtrip, Gost89User);
-// @ob name=m_user_blocks_0 props=C04,C15 kind=bounded bound="n = 0 block(s)" fn=magma::Gost89<UserS>::encrypt_with_backend,magma::Gost89<UserS>::decrypt_with_backend,magma::Gost89<UserS>::encrypt_block,magma::Gost89<UserS>::decrypt_block timeout=600
+// @ob name=l_user_rt_encdec props=C01 kind=lemma fn=magma::Gost89<UserS>::encrypt_block,magma::Gost89<UserS>::decrypt_block uses=c_user_gfun timeout=600
+// @ob name=l_user_rt_decenc props=C01 kind=lemma fn=magma::Gost89<UserS>::encrypt_block,magma::Gost89<UserS>::decrypt_block uses=c_user_gfun timeout=600
+roundtrip!(l_user_rt_encdec, l_user_rt_decenc, Gost89User);
+// @ob name=m_user_blocks_0 props=C04,C15 kind=bounded bound="n = 0 block(s)" fn=magma::Gost89<UserS>::encrypt_with_backend,magma::Gost89<UserS>::decrypt_with_backend note="g abstracted to a^k (plumbing only; the real block functions are c_user_enc_state / c_user_dec_state)" timeout=600
 multi_block!(m_user_blocks_0, Gost89User, 0);
-// @ob name=m_user_blocks_1 props=C04,C15 kind=bounded bound="n = 1 block(s)" fn=magma::Gost89<UserS>::encrypt_with_backend,magma::Gost89<UserS>::decrypt_with_backend,magma::Gost89<UserS>::encrypt_block,magma::Gost89<UserS>::decrypt_block timeout=600
+// @ob name=m_user_blocks_1 props=C04,C15 kind=bounded bound="n = 1 block(s)" fn=magma::Gost89<UserS>::encrypt_with_backend,magma::Gost89<UserS>::decrypt_with_backend note="g abstracted to a^k (plumbing only; the real block functions are c_user_enc_state / c_user_dec_state)" timeout=600
 multi_block!(m_user_blocks_1, Gost89User, 1);
-// @ob name=m_user_blocks_3 props=C04,C15 kind=bounded bound="n = 3 block(s)" fn=magma::Gost89<UserS>::encrypt_with_backend,magma::Gost89<UserS>::decrypt_with_backend,magma::Gost89<UserS>::encrypt_block,magma::Gost89<UserS>::decrypt_block timeout=600
+// @ob name=m_user_blocks_3 props=C04,C15 kind=bounded bound="n = 3 block(s)" fn=magma::Gost89<UserS>::encrypt_with_backend,magma::Gost89<UserS>::decrypt_with_backend note="g abstracted to a^k (plumbing only; the real block functions are c_user_enc_state / c_user_dec_state)" timeout=600
 multi_block!(m_user_blocks_3, Gost89User, 3);
 // @ob name=k_user_keylen props=C11 kind=bounded bound="slice length <= 300" fn=magma::Gost89<UserS>::new_from_slice timeout=300
 keylen!(k_user_keylen, Gost89User);
